@@ -557,7 +557,7 @@ fn shape_hash(d: &Decl) -> u64 {
 
 // ------------------------------------------------------------------ broken declarations
 
-pub const BROKEN_CLASSES: [&str; 17] = [
+pub const BROKEN_CLASSES: [&str; 19] = [
     "duplicate-id",
     "duplicate-id-with-void",
     "duplicate-id-with-crc32",
@@ -572,6 +572,8 @@ pub const BROKEN_CLASSES: [&str; 17] = [
     "extra-segment-master",
     "zero-maximum-placeholder",
     "adjacent-placeholders",
+    "placeholder-bounds-differ-from-parent-leaf",
+    "placeholder-bounds-differ-from-parent-master",
     "missing-id",
     "missing-data-type-or-unknown-type",
     "unknown-attribute",
@@ -683,6 +685,33 @@ pub fn make_broken(rng: &mut Rng, base: &Decl, class: &str) -> Option<String> {
                 d.vars[i].path[k] = z;
             } else {
                 d.vars[i].path.push(z);
+            }
+        }
+        "placeholder-bounds-differ-from-parent-leaf" | "placeholder-bounds-differ-from-parent-master" => {
+            // right length, right direct parent, every named segment right: only a placeholder of the inherited prefix
+            // carries other bounds than the parent's declaration (a different range of depths, not just another spelling)
+            let want_master = class.ends_with("master");
+            let c: Vec<usize> = d.vars.iter().enumerate().filter(|(_, v)| (v.ty == Ty::Master) == want_master && matches!(v.path.last(), Some(Seg::Name(_))) && v.path[..v.path.len() - 1].iter().any(|s| matches!(s, Seg::Glob(..)))).map(|(i, _)| i).collect();
+            if c.is_empty() {
+                return None;
+            }
+            let i = *rng.pick(&c);
+            let n = d.vars[i].path.len();
+            let ks: Vec<usize> = (0..n - 1).filter(|k| matches!(d.vars[i].path[*k], Seg::Glob(..))).collect();
+            let k = *rng.pick(&ks);
+            if let Seg::Glob(mn, mx) = d.vars[i].path[k].clone() {
+                let lo = mn.unwrap_or(0);
+                let new = match rng.below(3) {
+                    0 => Seg::Glob(mn, match mx { Some(m) => if rng.chance(1, 2) { Some(m + 1 + rng.below(3)) } else { None }, None => Some(lo + 1 + rng.below(4)) }),
+                    1 => Seg::Glob(Some(lo + 1), mx.map(|m| m.max(lo + 1))),
+                    _ => Seg::Glob(Some(lo + 1 + rng.below(2)), match mx { Some(m) => Some(m.max(lo + 2) + 1), None => Some(lo + 5) }),
+                };
+                // must denote a different range
+                let norm = |s: &Seg| match s { Seg::Glob(a, b) => (a.unwrap_or(0), b.unwrap_or(u64::MAX)), _ => (0, 0) };
+                if norm(&new) == norm(&d.vars[i].path[k]) {
+                    return None;
+                }
+                d.vars[i].path[k] = new;
             }
         }
         "adjacent-placeholders" => {
@@ -1031,7 +1060,7 @@ fn run(c: &mut Case) {
         }
     }
     // broken declarations the macro accepted must be rejected by rustc; batch them on a few designated cases
-    if !needs_rustc.is_empty() && (c.idx < c.tier.pick(34, 170)) {
+    if !needs_rustc.is_empty() && (c.idx < c.tier.pick(38, 190)) {
         // keep crate names unique per case so that parallel cases do not collide
         let dir_suffix = c.idx;
         match reject_compile_one(&needs_rustc[0].1, dir_suffix) {
@@ -1050,7 +1079,18 @@ fn run(c: &mut Case) {
             }
         }
     } else if !needs_rustc.is_empty() {
-        c.count("broken_accepted_by_macro_not_compiled_in_this_case");
+        // path rules are invisible to rustc (paths only end up in data): when the macro library lets such a
+        // declaration through, nothing else can reject it
+        let path_only = ["wrong-prefix", "missing-segment", "extra-segment", "placeholder-bounds", "zero-maximum", "adjacent-placeholders"];
+        if path_only.iter().any(|p| needs_rustc[0].0.starts_with(p)) {
+            c.violation(
+                format!("C18/broken-accepted/{}", needs_rustc[0].0),
+                format!("a declaration of the broken class '{}' is accepted by the macro (path rules are checked by the macro only; rustc never sees them)", needs_rustc[0].0),
+                J::obj().set("broken_class", J::s(needs_rustc[0].0.clone())).set("declaration", J::s(needs_rustc[0].1.clone())).set("embedded_in_random_declaration", J::Bool(embedded)),
+            );
+        } else {
+            c.count("broken_accepted_by_macro_not_compiled_in_this_case");
+        }
     }
     let _ = reject_compile_stage;
 }
@@ -1099,6 +1139,11 @@ fn minimal_base() -> Decl {
             v("Leaf", 0x4101, Ty::U, vec![nm("Root"), nm("Mid"), nm("Deep")]),
             v("Leaf2", 0x4102, Ty::S, vec![nm("Root"), nm("Mid")]),
             v("G", 0x4103, Ty::B, vec![nm("Root"), Seg::Glob(Some(1), Some(2))]),
+            v("Wild", 0xA3, Ty::Master, vec![nm("Root"), Seg::Glob(Some(1), Some(3))]),
+            v("WLeaf", 0x4104, Ty::U, vec![nm("Root"), Seg::Glob(Some(1), Some(3)), nm("Wild")]),
+            v("WSub", 0xA4, Ty::Master, vec![nm("Root"), Seg::Glob(Some(1), Some(3)), nm("Wild")]),
+            v("Free", 0xA5, Ty::Master, vec![Seg::Glob(None, None)]),
+            v("FLeaf", 0x4105, Ty::S, vec![Seg::Glob(None, None), nm("Free")]),
         ],
     }
 }
